@@ -943,6 +943,8 @@ theorem descend_gwf (rw : E → Prec → Option E) (hok : RwOk rw) (rec : E → 
       simp only [hx1] at h
       obtain ⟨hw1, hsame⟩ := hgi x1 hx1
       split at h
+      · cases h
+      split at h
       · rename_i hdrop
         have hfx : FitsIn p x1 = true := by
           simp only [Bool.or_eq_true, decide_eq_true_eq, Bool.and_eq_true, beq_iff_eq] at hdrop
